@@ -76,6 +76,7 @@ func vhAccounts(gs *GameState, tag string) {
 		vAssert(p.Wager >= 0, "C01.wager-nonneg"+tag)
 		vAssert(p.Pot >= 0, "C01.pot-nonneg"+tag)
 		vAssert(p.StackSize <= p.Bankroll, "C12.stack-not-above-bankroll"+tag)
+		vAssert(vAnd(vAnd(p.StackSize >= 0, p.Wager >= 0), p.Pot >= 0), "C12.no-amount-makes-wager-stack-or-pot-negative"+tag)
 		sum += p.Wager
 		mx = vIte(p.Wager > mx, p.Wager, mx)
 	}
